@@ -150,3 +150,30 @@ def diagnostic_obligations(prop="C20"):
         r.detail = "brackets in a rejected file's echoed line or path are parsed as console markup"
         r.replay = c20.markup_cases()
     return [r]
+
+
+def preprocessor_exit_obligations(prop="C20"):
+    """the built-in preprocessor (pcpp's CmdPreprocessor) reports errors it cannot recover from by ending the process (sys.exit): SystemExit is not an Exception, so the
+    per-file handler of Project.__init__ would not contain it.  The call site in FortranReader.__init__ must stand inside a `try` whose handlers catch SystemExit."""
+    import ast
+    from harness import loader
+    from harness.core import OR, PROVED, REFUTED, UNKNOWN
+    oid = f"{prop}.S.FortranReader.__init__.preprocessor_exit_is_contained"
+    fn = loader.find_def("ford.reader", "FortranReader.__init__")
+    calls = [c for c in ast.walk(fn) if isinstance(c, ast.Call) and ast.unparse(c.func).endswith("CmdPreprocessor")]
+    if len(calls) != 1:
+        return [OR(id=oid, status=UNKNOWN, kind="S", target="ford.reader.FortranReader.__init__", detail=f"{len(calls)} CmdPreprocessor calls")]
+    ok = False
+    for t in [n for n in ast.walk(fn) if isinstance(n, ast.Try)]:
+        if any(x is calls[0] for b in t.body for x in ast.walk(b)):
+            for h in t.handlers:
+                names = [ast.unparse(h.type)] if h.type is not None and not isinstance(h.type, ast.Tuple) else ([ast.unparse(e) for e in h.type.elts] if h.type is not None else ["BaseException"])
+                if any(n in ("SystemExit", "BaseException") for n in names):
+                    ok = True
+    r = OR(id=oid, status=PROVED if ok else REFUTED, kind="S", role="pre", backend="ast", target="ford.reader.FortranReader.__init__",
+           desc="CmdPreprocessor(...) (pcpp) is called inside a try block that catches SystemExit")
+    if not ok:
+        from bounded import c20
+        r.detail = "a file pcpp gives up on (one that includes itself, say) ends the whole run"
+        r.replay = c20.preprocessor_exit_case()
+    return [r]
